@@ -290,7 +290,7 @@ def _pair_rows(args):
             if '+addi' in kind:
                 lines.append('addi x9, x9, %%lo(%s)' % e)
             elif '+lw' in kind:
-                lines.append('lw x10, %%lo(%s)(x9)' % e if rng.random() < 0.5 else 'lw x10, x9, %%lo(%s)' % e)
+                lines.append('lw x10, x9, %%lo(%s)' % e)
             elif '+sw' in kind:
                 lines.append('sw x9, x10, %%lo(%s)' % e)
             else:
@@ -399,6 +399,9 @@ def c07(run, scratch):
             refusals.extend(ref)
     npair = len(rows) - nfn
     _require(npair > 1000, 'too few pair programs assembled (%d); refusals: %s' % (npair, refusals[:3]))
+    kinds_seen = {(x[7], x[8]) for x in rows[nfn:]}
+    _require(all((k, c) in kinds_seen for k in range(len(PAIR_KINDS)) for c in (0, 1)), 'some pair kind was never validated: %s; refusals: %s' % (sorted(kinds_seen), refusals[:3]))
+    _require(not any(r_[0].startswith('batch') for r_ in refusals), 'a whole batch of literal pairs was refused: %s' % refusals[:2])
     bad = _validate_hilo(run, rows, scratch)
     for idx, clause in bad:
         x = rows[idx]
